@@ -112,6 +112,12 @@ static Dm pick_dmax(Rng &r, uint32_t cap, uint32_t esz, int64_t rmax, bool viol)
 }
 static int pick(Rng &r, std::initializer_list<int> l) { return *(l.begin() + r.below((uint32_t)l.size())); }
 
+// lengths: mostly short, sometimes long -- stack/heap switch-overs typically sit at 64..1024 elements
+static int rlen(Rng &r, int shortmax, int longmax) {
+    if (r.chance(1, 8)) return 100 + (int)r.below(longmax > 100 ? longmax - 100 : 1);
+    return (int)r.below(shortmax);
+}
+
 // ------------------------------------------------------------------ family generators
 static bool gen_inplace(Bld &b, bool viol) {
     Rng &r = b.r;
@@ -121,7 +127,7 @@ static bool gen_inplace(Bld &b, bool viol) {
                               FN_memzero_s, FN_memzero16_s, FN_memzero32_s, FN_wcslwr_s, FN_wcsupr_s, FN_strnlen_s, FN_wcsnlen_s};
     int fn = fns[r.below(sizeof fns / sizeof *fns)];
     b.op.fn = fn;
-    int len = r.below(8) == 0 ? 0 : r.below(120);
+    int len = r.below(8) == 0 ? 0 : rlen(r, 120, 900);
     int extra = 1 + r.below(40);
     bool wide = fn == FN_wcslwr_s || fn == FN_wcsupr_s || fn == FN_wcsnlen_s;
     uint32_t esz = wide ? 4 : fn == FN_memzero16_s ? 2 : fn == FN_memzero32_s ? 4 : 1;
@@ -143,7 +149,7 @@ static bool gen_copy(Bld &b, bool viol) {
     bool wide = fn == FN_wcscpy_s || fn == FN_wcscat_s;
     bool cat = fn == FN_strcat_s || fn == FN_wcscat_s;
     uint32_t esz = wide ? 4 : 1;
-    int slen = r.below(100);
+    int slen = rlen(r, 100, 700);
     int dlen = cat ? r.below(60) : r.below(30);
     bool fits = !r.chance(1, 5);
     uint32_t need = (cat ? dlen : 0) + slen + 1;
@@ -218,7 +224,7 @@ static bool gen_fill(Bld &b, bool viol) {
     bool wide = fn == FN_wcsset_s || fn == FN_wcsnset_s;
     bool str = fn == FN_strset_s || fn == FN_strnset_s;
     uint32_t esz = wide || fn == FN_memset32_s ? 4 : fn == FN_memset16_s ? 2 : 1;
-    int len = r.below(100);
+    int len = rlen(r, 100, 700);
     uint32_t cap = len + 1 + r.below(30);
     std::string bytes = wide ? wbytes(rwstr(r, len, 0)) : rstr(r, len * (str ? 1 : esz), 0) + std::string(1, '\0');
     uint32_t off = b.put(bytes, esz, cap * esz);
@@ -242,7 +248,7 @@ static bool gen_cmp(Bld &b, bool viol) {
     b.op.fn = fn;
     bool wide = fn == FN_wmemcmp_s || fn == FN_wcscmp_s || fn == FN_wcsncmp_s || fn == FN_wcsicmp_s || fn == FN_wcsnatcmp_s || fn == FN_wcscoll_s;
     uint32_t esz = wide || fn == FN_memcmp32_s ? 4 : fn == FN_memcmp16_s ? 2 : 1;
-    int len = 1 + r.below(60);
+    int len = 1 + rlen(r, 60, 600);
     int kind = r.below(5);
     std::vector<uint32_t> w1 = rwstr(r, len, fn == FN_wcsicmp_s || fn == FN_wcsnatcmp_s ? 1 + r.below(3) : kind), w2 = w1;
     int rel = r.below(4); // 0 equal, 1 differ at one place, 2 prefix, 3 unrelated
@@ -288,7 +294,7 @@ static bool gen_search(Bld &b, bool viol) {
     b.op.fn = fn;
     bool wide = fn == FN_wcsstr_s;
     uint32_t esz = wide ? 4 : 1;
-    int len = 1 + r.below(100);
+    int len = 1 + rlen(r, 100, 700);
     int kind = pick(r, {0, 1, 3, 4});
     std::vector<uint32_t> hay = rwstr(r, len, kind == 1 ? 4 : kind), nee;
     if (r.chance(1, 2)) {
@@ -320,7 +326,7 @@ static bool gen_conv(Bld &b, bool viol) {
     Rng &r = b.r;
     int fn = pick(r, {FN_mbstowcs_s, FN_mbsrtowcs_s, FN_wcstombs_s, FN_wcsrtombs_s, FN_wcrtomb_s, FN_wctomb_s});
     b.op.fn = fn;
-    int len = r.below(60);
+    int len = rlen(r, 60, 500);
     bool nonascii = b.locale == 1 ? r.chance(1, 2) : r.chance(1, 6);
     std::vector<uint32_t> w = rwstr(r, len, nonascii ? 1 + r.below(2) : 0);
     b.op.a[0] = (viol && r.chance(1, 8)) ? -1 : (int64_t)b.put_zero(8, 8);
@@ -429,6 +435,8 @@ static void add_directive(Bld &b, std::string &fmt, std::vector<FmtArg> &args, b
         // %f of |v| > 1e9 falls through to libc snprintf("%le", (long double)v): a type mismatch that prints
         // indeterminate digits (C11 defect, not decided here) -- no such values for the %f conversions
         if ((di <= 2 || di == 8 || di == 9 || di == 11 || di == 12) && (dv > 1e9 || dv < -1e9)) dv = 12345.678;
+        // %#g of zero / tiny values indexes the engine's pow10[] table far out of bounds (C02 defect, not decided here)
+        if (di == 9 && !(dv >= 1e-4)) dv = 0.25;
         args.push_back({1, dbits(dv)});
         break;
     }
@@ -609,7 +617,7 @@ static bool gen_tok(Bld &b, bool viol) {
     bool wide = r.chance(1, 3);
     int fn = wide ? FN_wcstok_s : FN_strtok_s;
     uint32_t esz = wide ? 4 : 1;
-    int len = r.below(80);
+    int len = rlen(r, 80, 600);
     std::string delims = r.chance(1, 2) ? " ,;" : ",";
     std::vector<uint32_t> w;
     for (int i = 0; i < len; i++) w.push_back(r.chance(1, 4) ? (uint32_t)delims[r.below((uint32_t)delims.size())] : 'a' + r.below(26));
@@ -676,15 +684,15 @@ static bool gen_time(Bld &b, bool viol) {
         Dm d = pick_dmax(r, cap, 1, MAXSTR, viol && r.chance(1, 2));
         b.op.a[0] = (viol && r.chance(1, 8)) ? -1 : (int64_t)doff;
         b.op.a[1] = d.dmax;
-        b.op.a[2] = pick(r, {0, 1, 2, 12, 22, 34, 110, 400, 401, 403, 406, 410, 9999, -1});
+        b.op.a[2] = r.chance(1, 2) ? (int)r.below(134) : pick(r, {0, 1, 2, 12, 22, 34, 110, 400, 401, 403, 406, 410, 9999, -1});
         b.op.a[3] = d.bos;
     } else if (fn == FN_strerrorlen_s) {
-        b.op.a[0] = pick(r, {0, 1, 2, 12, 22, 34, 110, 400, 401, 403, 406, 410, 9999, -1});
+        b.op.a[0] = r.chance(1, 2) ? (int)r.below(134) : pick(r, {0, 1, 2, 12, 22, 34, 110, 400, 401, 403, 406, 410, 9999, -1});
     } else {
-        static const char *names[] = {"TZ", "VERIF_ENV_A", "VERIF_ENV_LONG", "NOPE_NOT_SET", ""};
-        std::string nm = names[r.below(5)];
+        static const char *names[] = {"TZ", "VERIF_ENV_A", "VERIF_ENV_LONG", "NOPE_NOT_SET", "", "VERIF_ENV_HUGE", "VERIF_ENV_HUGE"};
+        std::string nm = names[r.below(7)];
         nm += std::string(1, '\0');
-        uint32_t cap = r.chance(1, 3) ? 1 + r.below(4) : 16 + r.below(80);
+        uint32_t cap = r.chance(1, 3) ? 1 + r.below(4) : r.chance(1, 2) ? 16 + r.below(80) : 300 + r.below(900);
         uint32_t doff = b.put(rstr(r, 3, 0), 1, cap);
         Dm d = pick_dmax(r, cap, 1, MAXSTR, viol && r.chance(1, 2));
         b.op.a[0] = r.chance(1, 6) ? -1 : (int64_t)b.put_zero(8, 8);
@@ -813,7 +821,7 @@ static bool gen_uni(Bld &b, bool viol, int force_flavour = -1) {
         if (tight) b.op.a[1] = std::max<uint32_t>(1, len - r.below(3)); // runs out at the flush of a sequence
         break;
     default: // compose
-        if (b.op.a[5] < 0) b.op.a[2] = soff; // src == NULL with unknown object size clears SIZE_MAX elements (C01)
+        b.op.a[2] = soff; // src == NULL: pointer arithmetic on NULL before the check, and SIZE_MAX elements cleared when the object size is unknown (C01/C02)
         b.op.a[3] = r.chance(1, 3);
         b.op.a[4] = (int64_t)b.put(std::string((const char *)&lenv, 8), 8, 8); // lenp == NULL is dereferenced before it is checked (unrelated defect)
         if (b.op.a[1] == 0) b.op.a[1] = 1; // dmax == 0 is not rejected by this stage (an unrelated defect, C01/C05)
